@@ -208,7 +208,40 @@ def interleaved_unit(u) -> Stats:
     return st
 
 
+def large_unit(u) -> Stats:
+    """'Numerically beyond': n = 16, 17 (both sides of 2^15 coalitions without the player): integer combination of unanimity games,
+    whose Shapley value has the closed form sum_k c_k / |T_k| over the carriers containing the player (exact in rationals)."""
+    _, n, players = u
+    from incomplete_cooperative.shapley import compute_shapley_value_for_player
+    import numpy as np
+    st = Stats()
+    carriers = [(0b11, 5), ((1 << n) - 1, n), (0b1010101 | 1 << (n - 1), -3), (1 << (n - 1) | 1 << (n - 2) | 1, 7), (0b111000, 2), (1 << (n - 1), 4)]
+    ids = np.arange(1 << n)
+    vals = np.zeros(1 << n)
+    for t, c in carriers:
+        vals += c * ((ids & t) == t)
+    g = envs.full_game(vals.tolist())
+    for i in players:
+        want = sum(Fraction(c, A.popcount(t)) for t, c in carriers if t >> i & 1)
+        try:
+            got = float(compute_shapley_value_for_player(i, g))
+        except Exception as e:  # noqa: BLE001
+            st.violation(f"[shapley n={n} large] raised {type(e).__name__}: {e}", n=n, large=True, players=list(players))
+            return st
+        st.states += 1
+        st.transitions += 1
+        st.evals += 1
+        st.nontrivial += 1
+        if abs(got - float(want)) > 1e-9:
+            st.violation(f"[shapley n={n} large] player {i} gets {got}; for the combination of unanimity games {carriers} the average marginal "
+                         f"contribution is sum c_k/|T_k| = {want} (= {float(want)})", n=n, large=True, players=list(players))
+            return st
+    return st
+
+
 def dispatch(u) -> Stats:
+    if u[0] == "large":
+        return large_unit(u)
     if u[0] == "inter":
         return interleaved_unit(u)
     if u[0] == "guard":
@@ -254,6 +287,7 @@ def run(run: Run) -> None:
     us += [("a4bin", i, min(i + 256, 2048), seed) for i in range(0, 2048, 256)]
     us += [("a4ter", i, min(i + 243, 3 ** 6), seed) for i in range(0, 3 ** 6, 243)]
     us += [("scaled", i, i + 23, seed) for i in range(0, 69, 23)]
+    us += [("large", 17, (0,)), ("large", 17, (16,)), ("large", 16, (15,))] + ([] if quick else [("large", 17, (5,)), ("large", 18, (17,))])
     inter = [("inter", o) for o in ((2, 3, 4, 5, 6, 7), (7, 6, 5, 4, 3, 2), (3, 6, 3, 5, 3, 4, 3), (5, 5, 2, 5, 7, 2, 5), (4, 3, 4, 3, 6, 4))]
     run.rule = ("(i) the real Shapley code executed on indeterminates for each n: exact coefficient of every v(S) for every player compared with the "
                 "count over all n! orderings; (ii) every unit game e_S (a basis of the game space) through the real float path, both entry points; "
@@ -261,10 +295,10 @@ def run(run: Run) -> None:
                 "non-zero singletons, 138 large-magnitude games M*u + small perturbation (M = 1e6, 1e9); (iv) efficiency, null players, relabellings, additivity on all pairs of basis games (n<=5). "
                 "(v) call histories: interleaved player counts within one freshly forked process. "
                 "non-trivial = games with a non-zero Shapley vector / coefficient rows verified")
-    run.bounds = {"guard_n": [2, 7 if quick else 9], "basis_n": [2, 7 if quick else 9], "efficiency_only_n": [9] if quick else [9, 10]}
+    run.bounds = {"numerical_beyond_n": [16, 17] if quick else [16, 17, 18], "guard_n": [2, 7 if quick else 9], "basis_n": [2, 7 if quick else 9], "efficiency_only_n": [9] if quick else [9, 10]}
     run.assumptions = ["basis x orderings decides the identity for every real game at each enumerated n only together with the linearity guard (E5); "
                        "float rounding is bounded by 1e-12*scale, not enumerated"]
-    run.add(fanout(dispatch, sorted(us, key=lambda u: -(u[1] if u[0] in ("guard", "basis", "eff") else 5))))
+    run.add(fanout(dispatch, sorted(us, key=lambda u: -(u[1] * 100 if u[0] == "large" else u[1] if u[0] in ("guard", "basis", "eff") else 5))))
     from ..core import fresh_forks
     run.add(fresh_forks(dispatch, inter, procs=5))
 
@@ -273,6 +307,8 @@ def replay(doc: dict):
     st = Stats()
     if doc.get("generic"):
         st = guard_unit(doc["n"])
+    elif doc.get("large"):
+        st = large_unit(("large", doc["n"], tuple(doc.get("players", (0,)))))
     else:
         check_game(st, doc["n"], doc["values"], "replay")
     msgs = [v["message"] for v in st.violations]
